@@ -476,6 +476,7 @@ pub fn run(tier: Tier) -> i32 {
     cases(&report, if tier.thorough() { 3 } else { 2 });
     reexecution(&report, 2);
     cases_long_lists(&report);
+    cases_loose_lists(&report);
     if tier.thorough() {
         // 4 single-valued arms
         cases_single4(&report);
@@ -483,6 +484,37 @@ pub fn run(tier: Tier) -> i32 {
     report.finish()
 }
 
+
+/// when-lists over literals that are *loosely* related without being the same (true and any truthy value,
+/// nil and false, "" and empty / blank, 1 and 1.0): every value of a list counts, whatever stands before it.
+fn cases_loose_lists(report: &Report) {
+    let parser = cfgs::parser(Config::Stdlib);
+    let lits = [V::Bool(true), V::Bool(false), V::Nil, V::s("a"), V::s(""), V::s(" "), V::Int(1), V::Float(1.0), V::Empty, V::Blank];
+    let targets = [V::s("b"), V::s("a"), V::Int(2), V::Int(1), V::Float(1.0), V::s(""), V::s("  "), V::Nil, V::Bool(true), V::Bool(false), V::Arr(vec![]), V::Arr(vec![V::Int(1)])];
+    let k = lits.len() as u64;
+    let mut n = 0u64;
+    for len in [2usize, 3] {
+        for li in 0..k.pow(len as u32) {
+            let mut x = li;
+            let list: Vec<Expr> = (0..len).map(|_| { let e = Expr::Lit(lits[(x % k) as usize].clone()); x /= k; e }).collect();
+            for or in [false, true] {
+                for target in &targets {
+                    let whens = vec![(list.clone(), or, vec![text("HIT")])];
+                    let prog = vec![text("["), Stmt::Case { target: Expr::var("t"), whens, else_: Some(vec![text("EL")]) }, text("]")];
+                    let data = V::obj(&[("t", target.clone())]);
+                    let textp = print(&prog);
+                    report.eval();
+                    n += 1;
+                    let expected = refl::run(&prog, &data);
+                    let (actual, _) = cfgs::run_case(&parser, &textp, &data.to_object());
+                    cmp::check(report, "C06", "case-loose-list", n, || cmp::witness(&textp, &data, &[]), &expected, &actual);
+                }
+            }
+        }
+    }
+    report.family(FamilyStat { name: "case-when/lists of loosely related literals".into(), cases: n, nontrivial: n, skipped: 0, note: "every 2- and 3-list over {true, false, nil, 'a', '', ' ', 1, 1.0, empty, blank}, comma and `or` form, x 12 targets".into() });
+    report.nontrivial.fetch_add(n, Ordering::Relaxed);
+}
 
 /// when-lists of three and four values (comma and `or` forms), alone and after a non-matching arm.
 fn cases_long_lists(report: &Report) {
